@@ -85,6 +85,25 @@ CHECKS = {
         "argument variants are complete at one focus position at a time.",
         "DESIGN.md section 4, C04",
     ),
+    "C05": (
+        "smallscope",
+        "bounded-exhaustive enumeration of generated YAML documents through the real loader "
+        "against the pipeline the document describes",
+        "YAML text (written by an own emitter, block and flow style) for pipelines of 1-4 "
+        "(quick) / 1-5 (thorough) elements with every assignment of the syntactic forms (!Tag "
+        "mapping / sequence / bare, __type__ mapping, tail with __args__) to positions, "
+        "argument values from scalars, nested lists and mappings, lazily and eagerly evaluated "
+        "nested tags, and a raising constructor at every position; loaded through the real "
+        "load(path) with recording plugin classes discovered through a real entry-point "
+        "directory, and through load_pipeline. Oracle: n objects in order, each target is the "
+        "next object, constructed once, last to first, exactly the configured arguments (after "
+        "the document is fully loaded), equal to the >> pipeline; a failing constructor makes "
+        "loading raise.",
+        "Trusted: the YAML text writer and the recording plugin classes; value kinds are "
+        "rotated over positions rather than fully multiplied for n >= 3; non-tail __type__ "
+        "mappings carry keyword items only.",
+        "DESIGN.md section 4, C05",
+    ),
     "C06": (
         "smallscope",
         "explicit-state BFS over operation histories of the real Standardiser against a "
@@ -212,6 +231,24 @@ CHECKS = {
         "no Buffer service is running; the value of the deprecated `consumption` field is not "
         "checked.",
         "DESIGN.md section 4, C16",
+    ),
+    "C18": (
+        "smallscope",
+        "bounded-exhaustive enumeration of forbidden tags x targets x positions x shapes "
+        "through the real loader with side-effect canaries",
+        "Every python/* tag kind known to the installed PyYAML (12 exact tags, 5 prefixes, "
+        "read from its constructor tables) and unregistered local tags x targets (builtins, "
+        "os / subprocess functions, cobald classes, a not-yet-imported canary module, a canary "
+        "callable) x 11 positions (top level, section value, pipeline element, element "
+        "argument, inside lazily / eagerly evaluated registered tags) x argument shapes, "
+        "thorough also two nested tags, loaded through the real load(path). Oracle: loading "
+        "raises, and no canary fired (module not imported, callable not called, no marker "
+        "file, audit hook saw no os.system / Popen / exec / import of the canary); control "
+        "documents with registered tags at the same positions load.",
+        "Trusted: the audit hook and canaries observe every instantiation route of interest; "
+        "the legacy `__type__: dotted.name` mechanism instantiates arbitrary callables by "
+        "design and is outside the rejection clause.",
+        "DESIGN.md section 4, C18",
     ),
     "C17": (
         "smallscope",
